@@ -64,7 +64,7 @@ def model_and_cases(ctx, mode):
     jobs = [(lambda j=j: gh.gen(ctx, j[0], j[1], budget=j[2], **j[3])) for j in gj]
     jobs += [(lambda j=j: ctx.tlc("GitHistory", j[0], files={j[0]: j[1]}, allow_violation=True, timeout=3000,
                                   workers=j[2], heap="3g" if ctx.thorough else "1g")) for j in mj]
-    res = gh.run_parallel(jobs, width=7 if not ctx.thorough else 5)
+    res = gh.run_parallel(jobs, width=3)
     parts, stats = [], []
     for j, (cs, r) in zip(gj, res[:len(gj)]):
         parts.extend(cs)   # already de-duplicated and sub-sampled inside gh.gen (memory)
